@@ -54,6 +54,25 @@ def check_case(ctx, cs):
                 ctx.violate("compatibility.flip_ctrlpts2d_file", tg, small, {"rows": len(r), "expected_rows": sv, "row0": r[0] if r else r})
         finally:
             shutil.rmtree(d, ignore_errors=True)
+        # the 2-D text file of the net (one row of the grid per line), also with empty lines around the rows: the reader reports
+        # the grid sizes in the (u, v) order of every other module and the flat list in the common layout
+        from geomdl import exchange
+        d2 = tempfile.mkdtemp(prefix="verif_c13t_")
+        try:
+            f1, f2 = os.path.join(d2, "g.txt"), os.path.join(d2, "g_padded.txt")
+            exchange.export_txt(obj, f1, two_dimensional=True)
+            rows = open(f1).read().strip().split("\n")
+            with open(f2, "w") as fb:
+                fb.write("\n" + "\n".join(rows) + "\n\n")
+            flat = [list(q) for q in (obj.ctrlptsw if sh["rat"] else obj.ctrlpts)]
+            for label, fn_ in (("as_written", f1), ("blank_lines", f2)):
+                ok, r = _try(ctx, "exchange.import_txt", tg + ["two_dimensional", label], small, lambda: exchange.import_txt(fn_, two_dimensional=True))
+                if ok and (list(r[1:]) != [su, sv] or not close_seq([list(q) for q in r[0]], flat, 1e-12)):
+                    ctx.violate("exchange.import_txt", tg + ["two_dimensional", label], small, {"sizes": list(r[1:]), "expected": [su, sv]})
+        except Exception as e:
+            ctx.violate("exchange.export_txt", tg + ["two_dimensional", "raises"], small, {"exception": repr(e)[:200]})
+        finally:
+            shutil.rmtree(d2, ignore_errors=True)
         # setter round trip
         ok, o2 = _try(ctx, "Surface.ctrlpts2d.setter", tg, small, lambda: build(sh))
         if ok:
